@@ -118,7 +118,7 @@ func wfUnits(u *hx.Units) bool {
 	}
 	seenM := map[int64]bool{}
 	for _, m := range u.Mults {
-		if m.M < 2 || seenM[m.M] {
+		if m.M < 1 || seenM[m.M] { // a multiplier of 1 is a second name for the base unit
 			return false
 		}
 		seenM[m.M] = true
@@ -933,7 +933,10 @@ func (g *unitsGen) multipliers(n int, small bool) []int64 {
 		default:
 			m = g.randBits(63)
 		}
-		if m >= 2 && !has(m) {
+		if g.r.Intn(25) == 0 {
+			m = 1 // a second name for the base unit
+		}
+		if m >= 1 && !has(m) {
 			ms = append(ms, m)
 		}
 	}
@@ -1022,6 +1025,13 @@ func unitsFeatured() []*hx.Units {
 			{M: 8, Names: [4]string{"msx", "msx", "msxl", "msxls"}},
 			{M: 7, Names: [4]string{"ms", "ms", "msec", "msecs"}},
 			{M: 56, Names: [4]string{"a", "ab", "abc", "abcd"}},
+		}},
+		{Base: [4]string{"b", "b", "byte", "bytes"}, Mults: []hx.UnitMult{
+			{M: 1, Names: [4]string{"o", "o", "octet", "octets"}},
+			{M: 1000, Names: [4]string{"k", "k", "kilo", "kilos"}},
+		}},
+		{Base: [4]string{"x", "xs", "ex", "exes"}, Mults: []hx.UnitMult{
+			{M: 1, Names: [4]string{"u", "us", "unit", "units"}},
 		}},
 		{Base: [4]string{".", ".", "dot", "dots"}, Mults: []hx.UnitMult{
 			{M: 10, Names: [4]string{".x", "x.", "(z", "k*"}},
